@@ -416,10 +416,35 @@ impl<'tcx> Ctx<'tcx> {
         }
     }
 
+    /// true when the code at `sp` was produced by an expansion that is not this workspace's own source text: a macro of another crate
+    /// (log::debug!, assert!, format_args!, derives) or a compiler desugaring.  Code written inside a `macro_rules!` of the workspace itself is the
+    /// workspace's code — a condition moved into a local macro must stay visible to the rules — so such expansions are looked through.
+    fn foreign_expansion(&self, sp: rustc_span::Span) -> bool {
+        let mut sp = sp;
+        let mut fuel = 16;
+        while sp.from_expansion() && fuel > 0 {
+            fuel -= 1;
+            let ed = sp.ctxt().outer_expn_data();
+            let local = match (&ed.kind, ed.macro_def_id) {
+                (rustc_span::ExpnKind::Macro(rustc_span::MacroKind::Bang, _), Some(d)) => {
+                    let cn = self.tcx.crate_name(d.krate);
+                    let cn = cn.as_str();
+                    cn == "melstf" || cn == "melvm" || cn == "tip911_stakeset"
+                }
+                _ => false,
+            };
+            if !local {
+                return true;
+            }
+            sp = ed.call_site;
+        }
+        sp.from_expansion()
+    }
+
     fn span_info(&self, sp: rustc_span::Span) -> (String, usize, usize, bool) {
         let sm = self.tcx.sess.source_map();
         // use the outermost call site for macro-expanded spans so that the line is in this crate
-        let exp = sp.from_expansion();
+        let exp = self.foreign_expansion(sp);
         let sp2 = sp.source_callsite();
         let lo = sm.lookup_char_pos(sp2.lo());
         let hi = sm.lookup_char_pos(sp2.hi());
